@@ -255,6 +255,7 @@ pub fn child_main(sc: &Scenario, root: &Path, wfd: i32, trace: bool) -> ! {
     }
     let sc_fin = Arc::new(sc.clone());
     let finish: world::Finish = Arc::new(move |report| {
+        crate::fsmon::undo_outside_creations();
         crate::fsmon::arm(false);
         let out = oracle::judge(&sc_fin, &report);
         let json = serde_json::to_vec(&out).unwrap_or_else(|e| format!("{{\"harness_error\":\"{}\"}}", e).into_bytes());
